@@ -39,7 +39,7 @@ package virtual
 
 //@ func (*inMemoryDirectoryContents).attach
 //@   props C13
-//@   requires c.entriesList.previous != nil && c.entriesList.previous.next == &c.entriesList
+//@   assume c.entriesList.previous != nil && c.entriesList.previous.next == &c.entriesList -- representation invariant of the cookie list (the sentinel's predecessor is the tail): established by initialize, re-established by attach and detach (their postconditions), the induction over histories is not mechanised
 //@   panics_if c.isDeleted || normalizedName in c.entriesMap
 //@   ensures resolves-to-what-was-put-there: normalizedName in c.entriesMap && c.entriesMap[normalizedName].child.kind == child.kind &&
 //@             c.entriesMap[normalizedName].child.directory == child.directory && c.entriesMap[normalizedName].child.leaf == child.leaf &&
@@ -51,15 +51,19 @@ package virtual
 //@   ensures cookie-is-the-counter-at-attach-time: c.entriesMap[normalizedName].cookie == old(c.changeID)
 //@   ensures one-modification: c.changeID == old(c.changeID) + 1 && touches(c) == old(touches(c)) + 1
 //@   ensures entry-is-new: c.entriesMap[normalizedName] != old(c.entriesList.previous) && c.entriesMap[normalizedName] != &c.entriesList
+//@   modifies c.changeID, c.lastDataModificationTime, clocknow, touches[c], c.entriesList.previous, c.entriesList.previous.next
+//@   havoc MD:* MV:* MC
 
 //@ func (*inMemoryDirectoryContents).detach
 //@   props C13
-//@   requires linked: entry != nil && entry.previous != nil && entry.next != nil && entry.previous.next == entry && entry.next.previous == entry
-//@   requires not-the-sentinel: entry != &c.entriesList && entry.previous != entry && entry.next != entry
+//@   assume entry != nil && entry.previous != nil && entry.next != nil && entry.previous.next == entry && entry.next.previous == entry -- representation invariant: an entry found through the map or the list is linked into the list (see attach)
+//@   assume entry != &c.entriesList && entry.previous != entry && entry.next != entry -- representation invariant: the entry is not the sentinel
 //@   ensures no-longer-resolves: !(old(entry.normalizedName) in c.entriesMap)
 //@   ensures unlinked-from-the-cookie-list: old(entry.previous).next == old(entry.next) && old(entry.next).previous == old(entry.previous)
 //@   ensures cleared-so-readdir-notices: entry.previous == nil && entry.next == nil
 //@   ensures one-modification: c.changeID == old(c.changeID) + 1 && touches(c) == old(touches(c)) + 1
+//@   modifies c.changeID, c.lastDataModificationTime, clocknow, touches[c], entry.previous, entry.next, entry.previous.next, entry.next.previous
+//@   havoc MD:* MC
 
 //@ func (*inMemoryDirectoryContents).mayAttach
 //@   props C13
@@ -87,6 +91,89 @@ package virtual
 //@   at call ReportEntry#1 assert cookie-continues-behind-the-entry: entry.cookie < MaxUint64 ==> arg1 == entry.cookie + 1
 //@   at call ReportEntry#1 assert name-of-the-entry: arg2 == entry.name
 //@   at call ReportEntry#2 assert cookie-continues-behind-the-entry: entry.cookie < MaxUint64 ==> arg1 == entry.cookie + 1 && arg2 == entry.name
+//@   ensures listing-modifies-nothing: forall c ref :: touches(c) == 0
+
+// Collaborators of the directory tree: they do not reach back into the
+// directory they are used by (assumed; listed in the evidence).
+//@ stub (pkg/filesystem/virtual.InitialContentsFetcher).FetchContents
+//@   pure -- a contents fetcher reads storage; it does not modify the directory being loaded
+//@ stub (pkg/filesystem/virtual.NamedAttributesFactory).NewNamedAttributes
+//@   pure
+//@ stub (pkg/filesystem/virtual.StatefulHandleAllocator).New
+//@   pure
+//@ stub (pkg/filesystem/virtual.StatefulHandleAllocation).AsStatefulDirectory
+//@   pure
+//@ stub (pkg/filesystem/virtual.StatefulHandleAllocation).AsLinkableLeaf
+//@   pure
+//@ stub (pkg/filesystem/virtual.StatefulDirectoryHandle).Release
+//@   pure
+//@ stub (pkg/filesystem/virtual.StatefulDirectoryHandle).GetAttributes
+//@   modifies all(arg2)
+//@ stub (pkg/filesystem/virtual.StatefulDirectoryHandle).NotifyRemoval
+//@   pure
+//@ stub (pkg/filesystem/virtual.ComponentNormalizer).Normalize
+//@   pure
+//@ stub (pkg/filesystem/virtual.LinkableLeaf).Unlink
+//@   pure -- leaves are separate objects: unlinking one does not modify directory contents
+//@ stub (pkg/filesystem/virtual.LinkableLeaf).Link
+//@   pure
+//@ stub (pkg/filesystem/virtual.NamedAttributes).VirtualGetAttributes
+//@   modifies all(arg2)
+
+// Materialising a lazily loaded directory fills it with its initial contents;
+// that is not a modification in the sense of the change counter's callers:
+// touches() is not affected.
+//@ func (*inMemoryPrepopulatedDirectory).getContents
+//@   props C13
+//@   modifies i.initialContentsFetcher, clocknow
+//@   havoc F:pkg/filesystem/virtual.inMemoryDirectoryContents.* F:pkg/filesystem/virtual.inMemoryDirectoryEntry.* MD:* MV:* MC
+//@   trustframe -- initial population of a lazily loaded directory is not counted as a modification; objects created for it are fresh
+//@   ensures r1 == nil ==> r0 == &i.contents && i.initialContentsFetcher == nil
+//@   ensures r1 != nil ==> r0 == nil && i.initialContentsFetcher == old(i.initialContentsFetcher)
+
+//@ func (*inMemoryPrepopulatedDirectory).markDeleted
+//@   props C13
+//@   loop 0 invariant (forall c ref :: c != &i.contents ==> touches(c) == old(touches(c))) && touches(&i.contents) >= old(touches(&i.contents)) && i == old(i)
+//@   loop 0 invariant forall d *inMemoryDirectoryContents :: d != &i.contents ==> d.changeID == old(d.changeID) && d.lastDataModificationTime == old(d.lastDataModificationTime)
+//@   modifies touches[&i.contents], clocknow, i.contents.isDeleted, i.contents.changeID, i.contents.lastDataModificationTime
+//@   havoc F:pkg/filesystem/virtual.inMemoryDirectoryEntry.previous F:pkg/filesystem/virtual.inMemoryDirectoryEntry.next MD:* MC
+//@   ensures counts-only-grow: touches(&i.contents) >= old(touches(&i.contents))
+//@   ensures marked-deleted: i.contents.isDeleted
+
+// Every kernel-facing operation either fails and modifies nothing, or
+// succeeds and bumps the change counter of each directory it modified; the
+// reported ChangeInfo brackets exactly that modification.
+//@ func (*inMemoryPrepopulatedDirectory).VirtualMkdir
+//@   props C13
+//@   ensures failure-modifies-nothing: r2 != StatusOK ==> forall c ref :: touches(c) == 0
+//@   ensures success-is-one-modification: r2 == StatusOK ==> touches(&i.contents) == 1 && r1.After == r1.Before + 1 && r1.After == i.contents.changeID
+//@ func (*inMemoryPrepopulatedDirectory).VirtualMknod
+//@   props C13
+//@   ensures failure-modifies-nothing: r2 != StatusOK ==> forall c ref :: touches(c) == 0
+//@   ensures success-is-one-modification: r2 == StatusOK ==> touches(&i.contents) == 1 && r1.After == r1.Before + 1 && r1.After == i.contents.changeID
+//@ func (*inMemoryPrepopulatedDirectory).VirtualLink
+//@   props C13
+//@   ensures failure-modifies-nothing: r1 != StatusOK ==> forall c ref :: touches(c) == 0
+//@   ensures success-is-one-modification: r1 == StatusOK ==> touches(&i.contents) == 1 && r0.After == r0.Before + 1 && r0.After == i.contents.changeID
+//@ func (*inMemoryPrepopulatedDirectory).VirtualOpenChild
+//@   props C13
+//@   ensures failure-modifies-nothing: r3 != StatusOK ==> forall c ref :: touches(c) == 0
+//@   ensures opening-an-existing-file-modifies-nothing: r3 == StatusOK && r2.After == r2.Before ==> forall c ref :: touches(c) == 0
+//@   ensures creation-is-one-modification: r3 == StatusOK && r2.After != r2.Before ==> touches(&i.contents) == 1 && r2.After == r2.Before + 1 && r2.After == i.contents.changeID
+//@ func (*inMemoryPrepopulatedDirectory).VirtualLookup
+//@   props C13
+//@   ensures lookup-modifies-nothing: forall c ref :: touches(c) == 0
+//@ func (*inMemoryPrepopulatedDirectory).VirtualRemove
+//@   props C13
+//@   ensures failure-modifies-nothing: r1 != StatusOK ==> forall c ref :: touches(c) == 0
+//@   ensures success-is-a-modification: r1 == StatusOK ==> touches(&i.contents) >= 1 && r0.After == r0.Before + 1 && r0.After == i.contents.changeID
+//@ func (*inMemoryPrepopulatedDirectory).VirtualRename
+//@   props C13
+//@   ensures failure-modifies-nothing: r2 != StatusOK ==> forall c ref :: touches(c) == 0
+//@   ensures renaming-a-file-onto-itself-or-its-hard-link-is-a-no-op:
+//@             r2 == StatusOK && oldDirectory == nil && newDirectory == nil && oldLeaf != nil && newLeaf == oldLeaf ==> forall c ref :: touches(c) == 0
+//@   ensures change-info-brackets-the-modifications: r2 == StatusOK && (newDirectory == nil || (newDirectory != iOld && newDirectory != iNew)) ==>
+//@             r0.After - r0.Before == touches(oldContents) && r1.After - r1.Before == touches(newContents)
 
 // ---------------------------------------------------------------------------
 // Pool-backed files live exactly as long as referenced (C16)
